@@ -136,7 +136,7 @@ pub mod c05 {
         }
     }
     fn run(ctx: &mut Ctx) {
-        let cases = ctx.tier.pick(700, 15_000);
+        let cases = ctx.tier.pick(3_000, 20_000);
         let max_k = ctx.tier.pick(400, 5_000);
         let strat = solve_case_strategy(GenParams::default_small(), ConfigGen { max_width: 3, ..Default::default() });
         ctx.pt_run("seq-every-poll", cases, strat, |c| serde_json::to_value(c).unwrap(), |c, obs| eval_cutoffs(c, obs, "C05", max_k));
@@ -168,7 +168,7 @@ pub mod c19 {
         }
     }
     fn run(ctx: &mut Ctx) {
-        let cases = ctx.tier.pick(500, 10_000);
+        let cases = ctx.tier.pick(2_500, 15_000);
         let max_k = ctx.tier.pick(400, 5_000);
         let strat = solve_case_strategy(GenParams::default_small(), ConfigGen { max_width: 3, ..Default::default() });
         ctx.pt_run("seq-consecutive-polls", cases, strat, |c| serde_json::to_value(c).unwrap(), |c, obs| eval_cutoffs(c, obs, "C19", max_k));
